@@ -11,6 +11,12 @@ Definition std_cfg (n : Z) : pcfg :=
 Definition lm_cfg_inverted (n : Z) : pcfg :=
   {| cap := n; fits := pool_lm_fits; avail := pool_lm_avail; tickc := fun w a => w && negb a |}.
 
+(* the heartbeat's life cycle (Model/Pool.v, "the heartbeat's life cycle") with the two facts regenerated from the Go AST *)
+Definition lm_hcfg : hcfg := {| hb_starts := pool_lm_hb_starts; hb_forever := pool_lm_hb_forever |}.
+Definition std_hcfg : hcfg := {| hb_starts := pool_std_hb_starts; hb_forever := pool_std_hb_forever |}.
+(* a heartbeat that has a way out of its loop (what the translator reports as hb_forever = false); refutation theorem only *)
+Definition hcfg_exiting : hcfg := {| hb_starts := true; hb_forever := false |}.
+
 Record entry := { ekind : Z; eargs : list Z }.
 Definition entry_of_sx (s : sx) : option entry :=
   match s with
@@ -69,31 +75,39 @@ Definition slabel_of (e : entry) : option slabel :=
   | _, _ => None
   end.
 
-(* run the hook labels through the LTS; harness-only entries (kind >= 200 except 211) are skipped.
-   Returns (number of entries consumed, last state, accepted) *)
-Fixpoint lrun_entries (c : pcfg) (s : lst) (es : list entry) (n : Z) : Z * lst * bool :=
+Definition tick_idle (t : tpc) : bool := match t with TIdle => true | _ => false end.
+Definition hb_code (b : hbst) : Z := match b with HbNone => 0 | HbRun => 1 | HbGone => 2 end.
+
+(* run the hook labels through the LTS with the heartbeat's life cycle on top (a tick label is accepted only while the
+   heartbeat runs); harness-only entries (kind >= 200 except 211) are skipped.  [fin]: at the end-of-case record (213, which
+   the harness writes only after the heartbeat iteration in progress had 250 ms to finish) the heartbeat is between two
+   iterations - the model's heartbeat never stops in the middle of one.
+   Returns (number of entries consumed, last state, accepted, fin) *)
+Fixpoint lrun_entries (c : pcfg) (h : hcfg) (s : hst lst) (es : list entry) (n : Z) (fin : bool) : Z * hst lst * bool * bool :=
   match es with
-  | [] => (n, s, true)
+  | [] => (n, s, true, fin)
   | e :: r =>
       match llabel_of e with
-      | Some l => match lstep c s l with
-                  | Some s' => lrun_entries c s' r (n + 1)
-                  | None => (n, s, false)
+      | Some l => match lhstep c h s (HL l) with
+                  | Some s' => lrun_entries c h s' r (n + 1) fin
+                  | None => (n, s, false, fin)
                   end
-      | None => if ekind e <? 200 then (n, s, false) else lrun_entries c s r (n + 1)
+      | None => if ekind e <? 200 then (n, s, false, fin)
+                else lrun_entries c h s r (n + 1) (if ekind e =? 213 then tick_idle (l_tick (h_s s)) else fin)
       end
   end.
 
-Fixpoint srun_entries (c : pcfg) (s : sst) (es : list entry) (n : Z) : Z * sst * bool :=
+Fixpoint srun_entries (c : pcfg) (h : hcfg) (s : hst sst) (es : list entry) (n : Z) (fin : bool) : Z * hst sst * bool * bool :=
   match es with
-  | [] => (n, s, true)
+  | [] => (n, s, true, fin)
   | e :: r =>
       match slabel_of e with
-      | Some l => match sstep c s l with
-                  | Some s' => srun_entries c s' r (n + 1)
-                  | None => (n, s, false)
+      | Some l => match shstep c h s (HL l) with
+                  | Some s' => srun_entries c h s' r (n + 1) fin
+                  | None => (n, s, false, fin)
                   end
-      | None => if ekind e <? 200 then (n, s, false) else srun_entries c s r (n + 1)
+      | None => if ekind e <? 200 then (n, s, false, fin)
+                else srun_entries c h s r (n + 1) (if ekind e =? 213 then tick_idle (s_tick (h_s s)) else fin)
       end
   end.
 
@@ -167,16 +181,18 @@ Definition pool_run (kind capz : Z) (es : list entry) : verdict :=
   let mon := pool_monitor kind capz es in
   if kind =? 10 then
     let c := lm_cfg capz in
-    let '(n, s, ok) := lrun_entries c linit es 0 in
+    let '(n, hs, ok, fin) := lrun_entries c lm_hcfg lhinit es 0 false in
+    let s := h_s hs in
     let same := match final_counters es with Some (raw, w) => (raw =? l_inuse s) && (w =? l_waiters s) | None => false end in
-    let m := SL [of_bool ok; SZ n; SZ (l_inuse s); SZ (l_waiters s); SZ (len (l_holders s))] in
-    if mon then (if ok && same then Agree else Differ m) else Violates m
+    let m := SL [of_bool ok; SZ n; SZ (l_inuse s); SZ (l_waiters s); SZ (len (l_holders s)); SZ (hb_code (h_hb hs)); of_bool fin] in
+    if mon then (if ok && same && fin && negb (has_kind 217 es) then Agree else Differ m) else Violates m
   else
     let c := std_cfg capz in
-    let '(n, s, ok) := srun_entries c (sinit c) es 0 in
+    let '(n, hs, ok, fin) := srun_entries c std_hcfg (shinit c) es 0 false in
+    let s := h_s hs in
     let same := match final_counters es with Some (raw, w) => (raw =? s_inuse s) && (w =? s_waiters s) | None => false end in
-    let m := SL [of_bool ok; SZ n; SZ (s_inuse s); SZ (s_waiters s); SZ (len (s_holders s))] in
-    if mon then (if ok && same then Agree else Differ m) else Violates m.
+    let m := SL [of_bool ok; SZ n; SZ (s_inuse s); SZ (s_waiters s); SZ (len (s_holders s)); SZ (hb_code (h_hb hs)); of_bool fin] in
+    if mon then (if ok && same && fin && negb (has_kind 217 es) then Agree else Differ m) else Violates m.
 
 Definition pool_entry (which : Z) (case obs : sx) : verdict :=
   match case, as_list entry_of_sx obs with
